@@ -63,7 +63,7 @@ def run(tier, seed):
     texts = [gen_core.render(s) for s in specs]
     res = impl.compile_many(texts)
     kcases, kmeta, mcases, mmeta = [], [], [], []
-    st = dict(exhaustive=0, answer_sets=0, candidates_total=0)
+    st = dict(compared_exhaustively=0, answer_sets=0, candidates_total=0)
     dist = {}
     for s, t, r in zip(specs, texts, res):
         rep.case(t)
@@ -88,7 +88,7 @@ def run(tier, seed):
         if len(models) > cap:
             models = models[:cap]
         st['answer_sets'] += len(models)
-        st['exhaustive'] += 1 if exhaustive else 0
+        st['compared_exhaustively'] += 1 if exhaustive else 0
         st['candidates_total'] += nc
         mcases.append('{| m_spec := %s; m_models := %s; m_exhaustive := %s |}' % (
             term, coq_list([coq_list([coq_str(a) for a in sorted(m)]) for m in models]), coq_bool(exhaustive)))
@@ -119,7 +119,7 @@ def run(tier, seed):
         rep.violation('proof obligation or correspondence no longer checks and no failing input was found: ' + ' | '.join(tie_broken),
                       dict(kind='broken-tie', theorem='Props/C01.v / compile-model correspondence', details=tie_broken,
                            first_differing_input=kmeta[kf[0]] if proof['ok'] and kf else None,
-                           searched='%d specifications, %d answer sets, %d compared exhaustively' % (len(specs), st['answer_sets'], st['exhaustive'])), no_input=True)
+                           searched='%d specifications, %d answer sets, %d compared exhaustively' % (len(specs), st['answer_sets'], st['compared_exhaustively'])), no_input=True)
     elif tie_broken:
         rep.notes.extend(tie_broken)
     rep.cov.update(specifications=len(specs), sentence_kinds=dist, **st)
